@@ -60,9 +60,17 @@ func decodeTD(b []byte) (t uint64, d []byte, n int, err error) {
 	return t, d, k + k2 + int(l), nil
 }
 func (m *mCode) Unmarshal(b []byte) (uint64, error) {
-	t, d, n, err := decodeTD(b)
-	m.T, m.D = t, d
-	return uint64(n), err
+	// like types generated for hslam/code, the byte field is a sub-slice of the input
+	t, k := readUvarint(b)
+	if k < 0 {
+		return 0, errors.New("bad tag")
+	}
+	l, k2 := readUvarint(b[k:])
+	if k2 < 0 || uint64(len(b)-k-k2) < l {
+		return 0, errors.New("bad length")
+	}
+	m.T, m.D = t, b[k+k2:k+k2+int(l)]
+	return uint64(k + k2 + int(l)), nil
 }
 
 type mPB struct {
@@ -116,7 +124,7 @@ var famJ = family{"json/xml", "J", func(t uint64, d []byte) interface{} { return
 	d, _ := hex.DecodeString(x.D)
 	return uint64(x.T), d
 }, false}
-var famCode = family{"code", "Code", func(t uint64, d []byte) interface{} { return &mCode{t, d} }, func(m interface{}) (uint64, []byte) { x := m.(*mCode); return x.T, x.D }, false}
+var famCode = family{"code", "Code", func(t uint64, d []byte) interface{} { return &mCode{t, d} }, func(m interface{}) (uint64, []byte) { x := m.(*mCode); return x.T, x.D }, true}
 var famPB = family{"pb", "PB", func(t uint64, d []byte) interface{} { return &mPB{t, d} }, func(m interface{}) (uint64, []byte) { x := m.(*mPB); return x.T, x.D }, false}
 var famMP = family{"msgp", "MP", func(t uint64, d []byte) interface{} { return &mMP{t, d} }, func(m interface{}) (uint64, []byte) { x := m.(*mMP); return x.T, x.D }, false}
 var famBytes = family{"bytes", "B", func(t uint64, d []byte) interface{} { b := append([]byte{byte(t)}, d...); return &b }, func(m interface{}) (uint64, []byte) {
@@ -309,6 +317,12 @@ func c12Run(x *X, c c12Cfg, concurrent bool) {
 	}
 	f := c.cc.fam
 	var got []string
+	type keptReply struct {
+		rep  interface{}
+		t    uint64
+		want []byte
+	}
+	var kept []keptReply
 	call := func(method string, t uint64, size int) string {
 		d := mkPayload(byte(t), 0, size)
 		rep := f.newMsg(0, nil)
@@ -324,6 +338,7 @@ func c12Run(x *X, c c12Cfg, concurrent bool) {
 		if rt != t+100 || !eqBytes(rd, want) {
 			return fmt.Sprintf("WRONG(tag %d, %s)", rt, digest(rd))
 		}
+		kept = append(kept, keptReply{rep, t, want})
 		return "ok"
 	}
 	big := 3*c.buf + 17
@@ -379,6 +394,13 @@ func c12Run(x *X, c c12Cfg, concurrent bool) {
 			got = append(got, "stream-ok")
 		}
 		got = append(got, call(f.method, 5, 30))
+	}
+	// the replies are still what they were when the calls returned
+	for _, k := range kept {
+		rt, rd := f.get(k.rep)
+		if rt != k.t+100 || !eqBytes(rd, k.want) {
+			x.Fail("C12/reply-changed-later", "configuration {%v}: the reply of request %d changed after later traffic", c, k.t)
+		}
 	}
 	want := []string{"ok", "E:unlucky thirteen", "E:can't find service C12.Nope", "ok", "pong", "ok", "stream-ok", "ok"}
 	if concurrent {
